@@ -186,7 +186,7 @@ def _coerce(fcp, t, v):
     if type(t) in (T.FloatType, T.DoubleType):
         return float(v)
     if type(t) in (T.ArrayType, T.DynamicArrayType):
-        return [coerce(fcp, t.underlying_type, x) for x in (v or [])]
+        return None if v is None else [coerce(fcp, t.underlying_type, x) for x in v]     # a null where a list belongs is not an empty list
     if type(t) is T.OptionalType:
         return None if v is None else coerce(fcp, t.underlying_type, v)
     if type(t) is T.StructType:
